@@ -142,6 +142,26 @@ for trial in range(%d):
                 w = Caching3D(g3, (lo, hi, lo, hi, lo, hi), (0.4, 0.4, 0.4), function_boundaries=fb)(*p)
                 if abs(w - v) > 1e-7 * (1 + abs(v)): bad.append(("3d-history-function_boundaries", trial, fb))
                 if abs(v - g3(*p)) > 1e-6 * (1 + abs(v)): bad.append(("3d-linear-function_boundaries", trial, fb))
+# exactly AT the sampling nodes (documented layout: linspace(min - 1e-7, max + 1e-7, max(int((max - min) / resolution) + 1, 2))), evaluated twice,
+# with and without function_boundaries: both evaluations equal the wrapped (linear) function and a fresh object
+for fb in (None, (4.0, 12.0), (-1.0, 1.0)):
+    lin = lambda x: 3.0 * x + 5.0
+    lo1, hi1, r1 = 0.0, 2.0, 0.25
+    nodes = np.linspace(lo1 - 1e-7, hi1 + 1e-7, max(int((hi1 - lo1) / r1) + 1, 2))
+    C1 = Caching1D(lin, (lo1, hi1), r1, function_boundaries=fb)
+    for x0 in nodes[1:-1]:
+        n += 1
+        a1, a2 = C1(float(x0)), C1(float(x0)); fr = Caching1D(lin, (lo1, hi1), r1, function_boundaries=fb)(float(x0))
+        if max(abs(a1 - lin(x0)), abs(a2 - lin(x0)), abs(fr - lin(x0))) > 1e-6 * (1 + abs(lin(x0))):
+            bad.append(("1d-node-value", repr(fb), float(x0), a1, a2, fr, lin(x0)))
+    lin2 = lambda x, y: 3.0 * x - 2.0 * y + 5.0
+    C2 = Caching2D(lin2, (lo1, hi1, lo1, hi1), (r1, r1), function_boundaries=fb)
+    for x0 in nodes[1:-1:2]:
+        for y0 in nodes[1:-1:3]:
+            n += 1
+            a1, a2 = C2(float(x0), float(y0)), C2(float(x0), float(y0))
+            if max(abs(a1 - lin2(x0, y0)), abs(a2 - lin2(x0, y0))) > 1e-6 * (1 + abs(lin2(x0, y0))):
+                bad.append(("2d-node-value", repr(fb), float(x0), float(y0), a1, a2, lin2(x0, y0)))
 # outside the caching area - including non-finite coordinates: ValueError, or the wrapped function itself when no_boundary_error is set
 nan, inf = float("nan"), float("inf")
 calls = []
